@@ -52,7 +52,12 @@ CHECKS = {
  'C12': _b('Contract of Table.subsample / biom.subsample / generate_subsamples (exactly n per vector, never more than the '
            'original, retained = total >= n, by_id, same seed, input unchanged) over all count vectors up to length 3 '
            'x n x axes x seeds; thorough adds an exact small-vector frequency check (6 sigma). The distributional conjunct '
-           'is not decided by contracts (DESIGN.md 9). Bounded only so far.'),
+           'is not decided by contracts (DESIGN.md 9). Deductive part (Tier P): both kernels of biom/_subsample.pyx and the '
+           'dispatcher - without replacement every vector with at least n counts sums to exactly n afterwards, every entry is '
+           'a non-negative integer not exceeding the original count, vectors below n are zeroed, nothing outside the slices is '
+           'written; with replacement every slice is replaced by the multinomial draw over counts / total; Tier A: '
+           'Table.subsample hands the kernel the copy\'s matrix compressed along the requested axis and filters both axes.',
+           technique=TECH),
  'C13': dict(level='other', technique=TECH,
   text='Tier P: _transform (f receives exactly the stored values of each vector as they were at entry, with its id and '
        'metadata; results written back to the same positions; nothing else changes). Bounded: contract of Table.transform / '
@@ -63,17 +68,24 @@ CHECKS = {
            'parse_table(ids=), _subset_table on JSON text (compact / spaced / indented) and HDF5, unknown-ID refusal. '
            'Bounded only: the string scanners are outside the verifier.'),
  'C15': _b('Validator soundness on a mutation grammar (single mutations quick, double thorough) of written JSON / HDF5 '
-           'files, completeness on everything the writers produce, accepted => loads. Bounded only so far.'),
+           'files, completeness on everything the writers produce, accepted => loads. Deductive part (Tier P, soundness of the '
+           'JSON validators): _valid_sparse_data (every entry an integer triple inside the declared shape with the declared '
+           'element type), _valid_rows / _valid_columns (non-empty ids, null-or-object metadata, no duplicate id), _valid_id, '
+           '_valid_metadata, _valid_shape, _valid_matrix_type, _valid_matrix_element_type; their composition in _validate_json, '
+           'the dense-matrix and HDF5 validators are bounded only.', technique=TECH),
  'C16': _b('Contract of == / != / descriptive_equality (depends on content only; equivalence relation; accessors do not '
            'change content; equal tables export equally) over equal-content routes x accessor interleavings, and all '
-           'single-difference pairs. Bounded only.'),
+           'single-difference pairs. Deductive part (Tier A, view-level scipy model): __eq__, __ne__, descriptive_equality and '
+           '_data_equality decide equality by type, ids, metadata and cells only (no stored-entry counts, no layout).',
+           technique=TECH),
  'C17': _b('All accepted construction inputs agree pairwise; adjacency / uc importers; malformed input always rejected '
            'with TableException. Bounded only (the error profile that turns a triggered structural '
            'test into the table error is proved under C20).'),
  'C18': _b('Contracts of add_metadata / del_metadata (exactly the named ids and keys), MetadataMap.from_file on files from '
            'the row grammar, _add_metadata. Bounded only.'),
  'C19': _b('Every summary / report figure / export equals the value computed from the dense view (non-square tables so '
-           'that axis mix-ups show). Bounded only. One known finding (pandas sparse fill value).'),
+           'that axis mix-ups show). Deductive part (Tier A): Table.sum (axis mapping), nnz, get_table_density. One known '
+           'finding (pandas sparse fill value).', technique=TECH),
  'C20': dict(level='proof', technique=TECH,
   text='Every function of biom/err.py is verified against its contract for all inputs (Tier P): _create_error_states, '
        'ErrorProfile._handle_error / test / state setter / setcall / getcall, geterr, seterr, seterrcall, geterrcall, '
@@ -87,5 +99,7 @@ CHECKS = {
        'natively on every run; registered test predicates and callbacks assumed pure / non-reentrant; register / '
        'unregister are not under contract'),
 }
+
+NOTE_DED = 'deductive part: proved for all inputs modulo the assumptions listed in the evidence file (library models, C integers as mathematical integers, numpy slices as copies, pure callbacks); bounded part: a stand-in that holds only on the enumerated scope; .pyx kernels judged on mechanically extracted source; numpy / scipy / h5py / pandas / click trusted'
 
 NOT_APPLICABLE = {}
